@@ -123,6 +123,10 @@ class ContractMixin:
         if name == "old":
             snap = st.old
             return self.ev_in_snap(e.args[0], st, snap, k)
+        if name == "step_time":
+            return k(Val(REAL, st.step_time if st.step_time is not None else self.loop_field_at(st, st.old, "time")), st)
+        if name == "prev_tick":
+            return k(Val(REAL, st.tick_time if st.tick_time is not None else self.loop_field_at(st, st.old, "time")), st)
         if name == "at_iteration_start":
             return self.ev_in_snap(e.args[0], st, st.labels.get("iter_snap") or st.old, k)
         if name == "at_step_start":
@@ -315,6 +319,11 @@ class ContractMixin:
                     continue
                 f = self.inv_formula(st, n, text, obj, snap=base)
                 st.assume(z3.Implies(obj.t != NULL, f) if guard else f)
+
+    def loop_field_at(self, st, snap, name):
+        s2 = st.copy()
+        s2.heap_override = snap
+        return self.loop_field(s2, name)
 
     def assume_kernel_facts(self, st, resume=False):
         for (name, expr, why, on_resume) in self.reg.kernel_facts:
@@ -837,6 +846,9 @@ class ContractMixin:
             s.old = s.snap()
             s.inv_base = s.old
             s.last_susp = s.old
+            if info.is_asyncgen:
+                s.tick_time = self.loop_field(s, "time")
+                s.step_time = s.tick_time
             self.assume_invariants_eagerly(s)
             if not c.no_invariants:
                 self.assume_kernel_facts(s)
